@@ -10,6 +10,7 @@ import LolHtml.Thm.C08_Escape
 import LolHtml.Thm.C16_Attrs
 import LolHtml.Lemmas.EscRealTag
 import LolHtml.Lemmas.EscRealText
+import LolHtml.Lemmas.EscRealCommentMain
 
 namespace LolHtml.Thm.C08Real
 open LolHtml LolHtml.Model LolHtml.Model.Esc LolHtml.Spec.Esc LolHtml.Spec.Attrs
@@ -203,5 +204,164 @@ theorem C08_text_real (cfg : TagCfg) (pre s out rest : Bytes) (m : M (List Lexem
         (by simp [inp, hr]) rfl hlt hne hls
       exact this
   simp only [runLoop, key]
+
+/-! ## Comments on the real table -/
+
+open LolHtml.Model.CommentStates LolHtml.Lemmas.EscComment in
+/-- **Side-condition on the current code**: the markup-declaration-open state and the ten comment states
+of the generated table are the ones the proofs were made for (`commentStatesWitness` names the state and
+the first differing arm otherwise). -/
+theorem commentStates_gen : CommentStatesOk Gen.Syntax.table = true := by decide +kernel
+
+open LolHtml.Model.CommentStates in
+theorem commentStatesWitness_gen : commentStatesWitness Gen.Syntax.table = [] := by decide +kernel
+
+open LolHtml.Model.CommentStates LolHtml.Lemmas.EscComment LolHtml.Spec.Esc.CommentEnd in
+/-- **C08_comment_real.** For every comment text `t` accepted by `Comment::set_text` (UTF-8 document),
+every prefix and every `rest`: the real lexer, started in the data state at `<` (at a lexeme boundary),
+on `pre ++ "<!--" ++ t ++ "-->" ++ rest` makes `k ≤ 3·|t| + 12` state-function calls after which
+exactly one lexeme has been handed to the sink: a comment lexeme whose raw range is exactly
+`<!--t-->` and whose text range is exactly the bytes of `t`; the machine is then in the data state at
+the first byte of `rest`, at a lexeme boundary, with no current token: it continues on `rest`. -/
+theorem C08_comment_real (cfg : TagCfg) (pre t rest : Bytes) (m : M (List Lexeme)) (l : LexRegs)
+    (hacc : containsCommentClosingSequence t = false)
+    (hstate : m.c.state = Gen.Syntax.table.dataState) (hpos : m.c.nextPos = pre.length)
+    (hl : m.r = .lexer l) (hls : l.lexemeStart = pre.length) :
+    let inp := pre ++ Gen.Consts.commentOpen ++ t ++ Gen.Consts.commentClose ++ rest
+    let stop := pre.length + 4 + t.length + 3
+    ∃ k, k ≤ 3 * t.length + 12 ∧ ∃ m' : M (List Lexeme),
+      (∀ fuel, runLoop ⟨Gen.Syntax.table, cfg, recOps⟩ inp (k + fuel) m
+          = runLoop ⟨Gen.Syntax.table, cfg, recOps⟩ inp fuel m') ∧
+      m'.x.sink = m.x.sink ++ [.nonTag ⟨m.x.prevConsumed, ⟨pre.length, stop⟩,
+          some (.comment ⟨pre.length + 4, pre.length + 4 + t.length⟩)⟩] ∧
+      slice inp (pre.length + 4) (pre.length + 4 + t.length) = t ∧
+      m'.c.nextPos = stop ∧ m'.c.state = Gen.Syntax.table.dataState ∧ m'.c.entered = false ∧
+      m'.x.sim = m.x.sim ∧
+      (∃ l', m'.r = .lexer l' ∧ l'.lexemeStart = stop ∧ l'.curNonTag = none ∧ l'.curTag = l.curTag) := by
+  intro inp stop
+  have hok := commentStates_gen
+  obtain ⟨c, r, x⟩ := m
+  obtain ⟨np, il, st, en, ca, lsh, cq, ltt⟩ := c
+  simp only at hstate hpos hl
+  have hdata : Gen.Syntax.table.dataState = 2 := Model.TagStates.data_of_ok Thm.C16.tagStates_gen
+  rw [hdata] at hstate
+  subst hstate hpos hl
+  have hinp : inp = pre ++ ([60, 33, 45, 45] ++ (t ++ [45, 45] ++ ([62] ++ rest))) := by
+    simp only [inp, Thm.C08.side_comment_serialise.1, Thm.C08.side_comment_serialise.2]
+    simp [List.append_assoc]
+  -- prologue
+  obtain ⟨m1, hrun1, hat1⟩ := prologue (cfg := cfg) hok (inp := inp) il en ca lsh cq ltt l x pre.length
+    (t ++ [45, 45] ++ ([62] ++ rest)) (by rw [hinp]; simp) hls
+  -- the text and the two dashes
+  obtain ⟨q, hq⟩ := after_of_accepted t [] .commentStart rfl
+    (by simpa using accepted_of_not_closing Thm.C08.side_comment_covers hacc)
+  obtain ⟨q1, q2, h1, h2, hp2, h3⟩ := close_from q
+  have hafter : after .commentStart (t ++ [45, 45]) = some q2 := by
+    rw [after_append, hq]; simp [after, h1, h2]
+  have hd2 : inp.drop (pre.length + 4) = (t ++ [45, 45]) ++ ([62] ++ rest) := by
+    rw [hinp, ← List.append_assoc, show pre.length + 4 = (pre ++ [60, 33, 45, 45]).length by simp]
+    simp
+  have hrb := run_bytes (cfg := cfg) hok (inp := inp) _ (pre.length + 4) (t ++ [45, 45]) .commentStart (pre.length + 4) m1
+    ([62] ++ rest) hat1 hd2
+  rw [hafter] at hrb
+  obtain ⟨k2, m2, hk2, hrun2, hat2⟩ := hrb
+  -- the closing `>`
+  have hd3 : inp.drop (pre.length + 4 + (t ++ [45, 45]).length) = 62 :: [] ++ rest := by
+    have e : inp = (pre ++ [60, 33, 45, 45] ++ (t ++ [45, 45])) ++ (62 :: rest) := by
+      rw [hinp]; simp [List.append_assoc]
+    have el : pre.length + 4 + (t ++ [45, 45]).length = (pre ++ [60, 33, 45, 45] ++ (t ++ [45, 45])).length := by
+      simp; omega
+    rw [e, el, List.drop_left]; rfl
+  obtain ⟨hb3, _⟩ := getElem?_of_drop hd3
+  have g := consume_byte (cfg := cfg) hok (inp := inp) _ q2 (pre.length + 4) _ 62 m2 hb3 hat2
+  unfold Goal at g
+  rw [h3] at g
+  obtain ⟨k3, tps, rr, _, hk3, hrun3, hrs, hre⟩ := g
+  rw [hp2] at hre
+  simp only [List.length_append, List.length_cons, List.length_nil] at hre hk2
+  have hkb : 3 + (k2 + k3) ≤ 3 * t.length + 12 := by omega
+  have hrr : rr = ⟨pre.length + 4, pre.length + 4 + t.length⟩ := by
+    obtain ⟨a, b⟩ := rr
+    simp only at hrs hre
+    simp only [Range.mk.injEq]
+    omega
+  subst hrr
+  refine ⟨3 + (k2 + k3), hkb,
+    em ⟨il, ca, lsh, cq, ltt, pre.length, l.curTag, l.curAttr, l.fd, x⟩ (pre.length + 4 + (t ++ [45, 45]).length) tps
+      ⟨pre.length + 4, pre.length + 4 + t.length⟩, fun fuel => ?_, ?_, ?_, ?_, ?_, ?_, ?_, ?_⟩
+  · rw [Nat.add_assoc, hrun1, Nat.add_assoc, hrun2, hrun3]
+  · simp only [em, stop, List.length_append, List.length_cons, List.length_nil]
+    rw [show pre.length + 4 + (t.length + (0 + 1 + 1)) + 1 = pre.length + 4 + t.length + 3 by omega]
+  · have : inp = (pre ++ [60, 33, 45, 45]) ++ t ++ ([45, 45, 62] ++ rest) := by
+      rw [hinp]; simp [List.append_assoc]
+    rw [this]
+    have := slice_mid (pre ++ [60, 33, 45, 45]) t ([45, 45, 62] ++ rest)
+    simpa using this
+  · simp only [em, stop, List.length_append, List.length_cons, List.length_nil]; omega
+  · simp only [em, hdata]
+  · rfl
+  · rfl
+  · exact ⟨_, rfl, by simp only [stop, List.length_append, List.length_cons, List.length_nil]; omega, rfl, rfl⟩
+
+open LolHtml.Model.CommentStates LolHtml.Lemmas.EscComment LolHtml.Spec.Esc.CommentEnd in
+/-- **C08_comment_real_early (necessity on the real table).** For every text `t` that `set_text`
+REJECTS: on `pre ++ "<!--" ++ t ++ tail` (whatever follows, in particular `"-->" ++ rest`) the real
+lexer hands a comment lexeme to the sink whose raw range ends at or before the last byte of `t`, and
+returns to the data state there: had the text been accepted, the rest of `t`, the real `-->` and
+everything after it would be lexed as markup. -/
+theorem C08_comment_real_early (cfg : TagCfg) (pre t tail : Bytes) (m : M (List Lexeme)) (l : LexRegs)
+    (hrej : containsCommentClosingSequence t = true)
+    (hstate : m.c.state = Gen.Syntax.table.dataState) (hpos : m.c.nextPos = pre.length)
+    (hl : m.r = .lexer l) (hls : l.lexemeStart = pre.length) :
+    let inp := pre ++ Gen.Consts.commentOpen ++ t ++ tail
+    ∃ k e r, e ≤ pre.length + 4 + t.length ∧ pre.length + 4 < e ∧ ∃ m' : M (List Lexeme),
+      (∀ fuel, runLoop ⟨Gen.Syntax.table, cfg, recOps⟩ inp (k + fuel) m
+          = runLoop ⟨Gen.Syntax.table, cfg, recOps⟩ inp fuel m') ∧
+      m'.x.sink = m.x.sink ++ [.nonTag ⟨m.x.prevConsumed, ⟨pre.length, e⟩, some (.comment r)⟩] ∧
+      m'.c.nextPos = e ∧ m'.c.state = Gen.Syntax.table.dataState ∧
+      (∃ l', m'.r = .lexer l' ∧ l'.lexemeStart = e) := by
+  intro inp
+  have hok := commentStates_gen
+  obtain ⟨c, r, x⟩ := m
+  obtain ⟨np, il, st, en, ca, lsh, cq, ltt⟩ := c
+  simp only at hstate hpos hl
+  have hdata : Gen.Syntax.table.dataState = 2 := Model.TagStates.data_of_ok Thm.C16.tagStates_gen
+  rw [hdata] at hstate
+  subst hstate hpos hl
+  -- a prefix of `t` on which the WHATWG machine has already emitted
+  have key : ∃ p c, t = p ++ c ∧ after .commentStart p = none := by
+    have hn := Thm.C08.side_comment_all_close
+    simp only [allClose, Bool.and_eq_true, List.all_eq_true, Option.isNone_iff_eq_none] at hn
+    obtain ⟨hcc, hcp⟩ := hn
+    simp only [containsCommentClosingSequence, containsClosingWith, Bool.or_eq_true, List.any_eq_true] at hrej
+    rcases hrej with ⟨x', hx, hxt⟩ | ⟨x', hx, hxt⟩
+    · obtain ⟨a, c, hac⟩ := (containsSeq_iff_infix _ _).mp hxt
+      refine ⟨a ++ x', c, hac.symm, ?_⟩
+      rw [after_append]
+      cases ha : after .commentStart a with
+      | none => rfl
+      | some q => exact hcc x' hx q (mem_allStates q)
+    · obtain ⟨c, hc⟩ := List.isPrefixOf_iff_prefix.mp hxt
+      exact ⟨x', c, hc.symm, hcp x' hx⟩
+  obtain ⟨p, c, htpc, hnone⟩ := key
+  have hinp : inp = pre ++ ([60, 33, 45, 45] ++ (p ++ (c ++ tail))) := by
+    simp only [inp, Thm.C08.side_comment_serialise.1, htpc]
+    simp [List.append_assoc]
+  obtain ⟨m1, hrun1, hat1⟩ := prologue (cfg := cfg) hok (inp := inp) il en ca lsh cq ltt l x pre.length
+    (p ++ (c ++ tail)) (by rw [hinp]; simp) hls
+  have hd2 : inp.drop (pre.length + 4) = p ++ (c ++ tail) := by
+    rw [hinp, ← List.append_assoc, show pre.length + 4 = (pre ++ [60, 33, 45, 45]).length by simp]
+    simp
+  have hrb := run_bytes (cfg := cfg) hok (inp := inp) _ (pre.length + 4) p .commentStart (pre.length + 4) m1
+    (c ++ tail) hat1 hd2
+  rw [hnone] at hrb
+  obtain ⟨k2, j, tps, rr, _, hj, hrun2, _, _⟩ := hrb
+  refine ⟨3 + k2, pre.length + 4 + j + 1, rr, ?_, by omega,
+    em ⟨il, ca, lsh, cq, ltt, pre.length, l.curTag, l.curAttr, l.fd, x⟩ (pre.length + 4 + j) tps rr,
+    fun fuel => ?_, rfl, rfl, ?_,
+    ⟨⟨pre.length + 4 + j + 1, tps, l.curTag, none, l.curAttr, l.fd⟩, rfl, rfl⟩⟩
+  · rw [htpc]; simp only [List.length_append]; omega
+  · rw [Nat.add_assoc, hrun1, hrun2]
+  · simp only [em, hdata]
 
 end LolHtml.Thm.C08Real
